@@ -75,6 +75,21 @@ CHECKS.update({
         "SPI values themselves are uninterpreted here (C07).", "7/C09"),
 })
 
+CHECKS.update({
+    "C02": _c("tlc-smooth", "TLC validation of linked executions (same series, different encodings of the missing cells) with TraceSmooth!Link; differences are granted only on ties established by the exact per-variant contracts of spec/Smooth.tla",
+        "For each of the seven smoother kernels (GCV with and without robust weights) the same series is run under different placeholders for its missing cells -- nodata below, inside and above the data range, and NaN / +inf / -inf for the fixed and GCV variants -- and TLC requires the same band and the same lambda; a difference is granted only if both executions, judged alone by the exact contract of their variant (exact PLS / expectile curves, V-curve / GCV optimum within the tie band), are accepted and differ by at most one unit. Pixels with fewer valid cells than the smoother needs must come back unchanged with lambda 0; the value at missing cells is the fitted curve there (band clause of each variant).",
+        "Sampled (not exhaustive) missing-cell patterns; robust GCV has no exact contract, so a one-cell +-1 difference there is SKIPped as undecidable.", "7/C02"),
+    "C04": _c("tlc-smooth", "TLC trace validation against the V-curve contract of spec/Smooth.tla: exact curve at every grid value (PLS, or expectile fixed points certified from logged envelope patterns), V-curve ordinates, optimum within a 1e-6 tie band, band = fixed-lambda smoother at the reported lambda",
+        "Every recorded call of ws2doptv / ws2doptvp / ws2doptvplc / whitsvc is decided by TLC: the reported lambda is the log10-midpoint of two consecutive grid entries, its V-curve ordinate -- computed from exact curves at every grid value -- is within the tie band of the minimum, the band is the (asymmetric) fixed-lambda smoother at that lambda (C03's contract), sgrid is float32(log10 lambda), and the autocorrelation variant sweeps -2..1.0 where lc > 0.5 and 0..3.0 elsewhere, NaN included (the swept grid is logged from the kernel source).",
+        "ln / sqrt / 10^x only rank candidates inside the tie band; grid values where the asymmetric sweep did not converge and degenerate criteria (perfect fit) are SKIPped and counted.", "7/C04"),
+    "C05": _c("tlc-smooth", "TLC trace validation against the GCV contract of spec/Smooth.tla (exact curves and scores at every grid value, optimum within a 1e-6 tie band, band = fixed-lambda smoother) + robust-mode families (KeepsAffine, NotZeroed, InGrid)",
+        "Non-robust calls of ws2dwcv / ws2dwcvp / whitswcv: TLC recomputes the GCV score sum w (y-z)^2 / (n (1 - trH/n)^2) from exact curves at every grid value and requires the reported lambda to be a grid value within the tie band of the minimum and the band to be the (asymmetric) fixed-lambda smoother at it. Robust calls: lambda in the grid; constant and exactly linear series with gaps come back unchanged, flat series with isolated spikes stay within [L-2H, L+2H] (not zeroed), each under two nodata placeholders (placeholder independence itself is C02's linked clause).",
+        "The robust band has no exact contract (only the consequences the property states are decided).", "7/C05"),
+    "C06": _c("tlc-smooth", "TLC validation of linked executions (integer offset, time reversal, exactly linear series) with TraceSmooth!Link",
+        "For every variant: the series shifted by an integer constant (placeholder shifted too) must give the band shifted by that constant and the same lambda; the reversed series the reversed band (fixed and V-curve variants); an exactly linear or constant series with gaps must come back as the line itself at every cell. Differences are granted only on ties established by the exact contracts (as C02).",
+        "Sampled; robust GCV differences of one unit in one cell are SKIPped.", "7/C06"),
+})
+
 NOT_YET = "check not built yet in this round (see DESIGN.md section 11 for the build order)"
 
 
